@@ -28,3 +28,9 @@ fn k_to_int_scalar() {
     core::mem::forget(r3);
     core::mem::forget(r4);
 }
+
+#[cfg(test)]
+mod playback {
+    use super::*;
+    include!("/verif/.cache/playback/std_to_int.rs");
+}
